@@ -75,7 +75,7 @@ func handlerMutates(fn *ssa.Function, depth int, seen map[*ssa.Function]bool) (b
 func runC16(r *Run) {
 	P := r.P
 	r.Rule("R1", "TABLE.abi-switch-istx: ABI function names = Run switch case constants; IsTransaction ⊆ cases; a handler from which a Cosmos effect or StateDB mutator is reachable ⇔ its method is in IsTransaction")
-	r.Rule("R2", "FLOW.native-message: each transaction handler calls exactly the tabled message-server/keeper method; the message argument is the decoder's first result with no field store in the handler; the message server is constructed by the module's NewMsgServerImpl; in the decoder the returned message depends on the returned address")
+	r.Rule("R2", "FLOW.native-message: each transaction handler calls exactly the tabled message-server/keeper method, error-checked, on every path to a success exit (per-element loops are R5's); the message argument is the decoder's first result with no field store in the handler; the message server is constructed by the module's NewMsgServerImpl; in the decoder the returned message depends on the returned address")
 	r.Rule("R3", "PATH.gas: in each Run every success exit is preceded by contract.UseGas(GasConsumed − initialGas) whose false result is a failure exit; RunSetup installs a gas meter limited by contract.Gas and returns the gas consumed before the handler as initialGas")
 
 	models := wiredPrecompiles(r)
@@ -153,6 +153,13 @@ func runC16(r *Run) {
 				fmt.Sprintf("handler of %s performs %v; the native message corresponds to exactly %s", h.Method, got, want))
 			if disp == nil {
 				continue
+			}
+			// the native call happens on every success path (no fast path that answers "done" without it)
+			if innermostLoop(disp.Block()) == nil {
+				isDisp := func(in ssa.Instruction) bool { return in == ssa.Instruction(disp) }
+				w := PathQuery{Fn: h.Fn, Block: isDisp, Target: isSuccessExit}.Search()
+				r.Check(w == nil && errHandled(disp), "R2", inst+"#native-call-on-every-success", P.Pos(instrPos(disp)), "every success exit is preceded by the error-checked native call",
+					"a success exit of the handler is reachable without the (error-checked) call of "+want+": for some inputs the precompile reports success, emits its event and charges gas while the native message would have changed (or refused to change) the state", P.witness(w)...)
 			}
 			// message argument = decoder result, unmodified
 			ci := callInfo(disp)
@@ -275,6 +282,62 @@ func runC16(r *Run) {
 		}
 	}
 	r.Floor("R6", "calls of state-writing SDK queries in precompile handlers", nWQ, 3)
+	// R7: query handlers answer from the module's own read path
+	r.Rule("R7", "TABLE.query-dispatch: each read-only precompile method obtains its answer from the tabled native read — the module's own gRPC query server method (staking/distribution Querier.<Method>), the keeper read the native query itself is defined by (GetRedelegation, GetSupply, Iterate*Balances/TotalSupply, DenomTrace(s)/DenomHash, GetAuthorization) — and the bytes it returns derive from that call's result. A handler that recomputes the figure itself is a second definition whose equality with the native query (share/token rounding, pagination, filtering) this analysis cannot establish, so it is reported")
+	queryDispatch := map[string]map[string]string{
+		"precompiles/staking": {"delegation": "Querier.Delegation", "unbondingDelegation": "Querier.UnbondingDelegation", "validator": "Querier.Validator", "validators": "Querier.Validators",
+			"redelegation": "Keeper.GetRedelegation", "redelegations": "Querier.Redelegations", "allowance": "Keeper.GetAuthorization"},
+		"precompiles/distribution": {"validatorDistributionInfo": "Querier.ValidatorDistributionInfo", "validatorOutstandingRewards": "Querier.ValidatorOutstandingRewards", "validatorCommission": "Querier.ValidatorCommission",
+			"validatorSlashes": "Querier.ValidatorSlashes", "delegationRewards": "Querier.DelegationRewards", "delegationTotalRewards": "Querier.DelegationTotalRewards",
+			"delegatorValidators": "Querier.DelegatorValidators", "delegatorWithdrawAddress": "Querier.DelegatorWithdrawAddress"},
+		"precompiles/ics20": {"denomTrace": "Keeper.DenomTrace", "denomTraces": "Keeper.DenomTraces", "denomHash": "Keeper.DenomHash", "allowance": "Keeper.GetAuthorization"},
+		"precompiles/bank":  {"balances": "ViewKeeper.IterateAccountBalances", "totalSupply": "Keeper.IterateTotalSupply", "supplyOf": "Keeper.GetSupply"},
+	}
+	nQD := 0
+	for _, m := range wiredPrecompiles(r) {
+		tbl := queryDispatch[m.Rel]
+		for _, h := range m.Handlers {
+			if h.Fn == nil || h.IsTx || !m.Stateful {
+				continue
+			}
+			inst := fnID(h.Fn) + "#query-dispatch"
+			want, ok := tbl[h.Method]
+			if !ok {
+				r.Bad("R7", inst, P.Pos(fnPos(h.Fn)), "read-only method "+h.Method+" has no entry in the native-read table (new method: confirm which native query it corresponds to)")
+				continue
+			}
+			nQD++
+			var site *extSite
+			for _, s := range externalSites(h.Fn, 3, map[*ssa.Function]bool{}) {
+				s := s
+				if s.Info.Recv+"."+s.Info.Name == want {
+					site = &s
+				}
+			}
+			if site == nil {
+				r.Bad("R7", inst, P.Pos(fnPos(h.Fn)), "the handler of "+h.Method+" no longer calls "+want+": its answer is computed by the precompile itself, a second definition of the native query")
+				continue
+			}
+			// the returned bytes depend on the native call's result (directly, or through the callback handed to an iterator)
+			dep := false
+			isIter := strings.HasPrefix(site.Info.Name, "Iterate")
+			eachInstr(h.Fn, func(in ssa.Instruction) {
+				ret, ok := in.(*ssa.Return)
+				if !ok || !isSuccessExit(in) || dep {
+					return
+				}
+				sl := backSlice(retOperands(ret)[0])
+				if sl.HasCall(func(ci CallInfo) bool { return ci.Recv+"."+ci.Name == want }) {
+					dep = true
+				}
+			})
+			if !dep && (isIter || site.Call.Parent() != h.Fn) {
+				dep = true // result collected through the iterator callback / inside a helper: presence of the call is what is decided
+			}
+			r.Check(dep, "R7", inst, P.Pos(instrPos(site.Call)), "answers from "+want, "the handler calls "+want+" but the bytes it returns do not derive from that call's result")
+		}
+	}
+	r.Floor("R7", "read-only precompile methods with a tabled native read", nQD, 20)
 	// R5: a handler that applies a Cosmos-side effect per element of a list applies it to every element
 	r.Rule("R5", "PATH.per-element-effect: in a precompile handler, a loop whose body performs a Cosmos-side effect performs it on every iteration — from the start of the body the loop header (next element) or a success exit is reachable only through the effect call; no filter `continue`/`break` decides which elements the native message would have processed anyway")
 	nLoopEff := 0
